@@ -626,7 +626,8 @@ pub fn wait_programs(tier: &str) -> (Vec<Program>, String) {
     }
     v.extend(fam::held_lock_deadlocks());
     v.extend(fam::wait_rounds());
-    let level = level + "; WAIT-rounds: one Notify / park token / condvar reused for 2-3 acknowledged rounds";
+    v.extend(fam::wait_loop_family(tier != "quick"));
+    let level = level + "; WAIT-rounds: one Notify / park token / condvar reused for 2-3 acknowledged rounds; WAIT-loop: `while !flag { wait }` with relaxed flags, 1-2 flags, 1-2 notifier threads, store/notify in either order, condvar with two waiters";
     (v, level)
 }
 
